@@ -456,7 +456,7 @@ func (d *Decoder) unmarshal(val reflect.Value, tagType byte) error {
 				if err = d.unmarshal(v.Elem(), tt); err != nil {
 					return fmt.Errorf("fail to decode tag %q: %w", tn, err)
 				}
-				val.SetMapIndex(reflect.ValueOf(tn), v.Elem())
+				val.SetMapIndex(reflect.ValueOf(tn).Convert(vt.Key()), v.Elem())
 			}
 		case reflect.Interface:
 			buf := make(map[string]any)
